@@ -69,7 +69,7 @@ def from_wwm(dset):
         )
     # Assigning spectral coordinates
     dset = dset.assign_coords({attrs.FREQNAME: dset.SPSIG / (2 * np.pi)})
-    dset = dset.assign_coords({attrs.DIRNAME: dset.SPDIR * R2D})
+    dset = dset.assign_coords({attrs.DIRNAME: (dset.SPDIR * R2D) % 360})
     # Setting standard attributes
     set_spec_attributes(dset)
     # converting Action to Energy density and adjust density to Hz
